@@ -4,7 +4,7 @@ monitor         metamorphic, on the implementation alone (harness/src/bin/recipe
                 for a source s and an edit E (checks/c17_edits.py: crlf, trail_comment, trail_space,
                 mid_comment, mid_comment_spaced, extra_lines; insertion points from a seeded tape)
                 observe(impl(E s)) == observe(impl(s)) where observe = (panic, valid, has_output, multiset of
-                (severity, stage) of the diagnostics, recipe with step/paragraph text normalised for blank space).
+                presence of an error, recipe with step/paragraph text normalised for blank space).
 correspondence  L-lex/L-ev of Model/Lexer.v + Model/Parser.v on the *edited* texts (CRLF, comments everywhere),
                 which the theorems of Properties/C17.v are about."""
 import json
